@@ -217,6 +217,9 @@ def harness_tz(eng, ctx):
     saved = ld.datetime_mod
     ld.datetime_mod = shim
     try:
+        if ctx.get('earlier_zone'):
+            # the same text was converted before, in this process, for a dataset in another (fixed-offset) zone
+            list(ld.generate_timestamped_rows([['<L>', 'w']], pytz.timezone(ctx['earlier_zone'])))
         rows = list(ld.generate_timestamped_rows([['<L>', 'v']], tz))
     except symx.ShimGap:
         raise
@@ -251,7 +254,7 @@ def harness_tz(eng, ctx):
     if eng.stats.paths % ctx.get('replay_every', 9) == 0:
         w = eng.witness()
         if w is not None:
-            okr, info = replay_tz(ctx['zone'], int(w['wall_clock_s']))
+            okr, info = replay_tz(ctx['zone'], int(w['wall_clock_s']), ctx.get('earlier_zone'))
             eng.note({'t': 'witness', 'n': 1})
             if not okr:
                 eng.note({'t': 'witness_mismatch', 'v': info})
@@ -326,15 +329,20 @@ def replay_tz2(zone, L1, d):
     return bad, info
 
 
-def replay_tz(zone, L):
+def replay_tz(zone, L, earlier_zone=None):
     """Real generate_timestamped_rows on the text of local time L; the stored instant must
-    render back to the same text (when the local time exists)."""
+    render back to the same text (when the local time exists).  With earlier_zone the same text
+    is first converted for that zone, as a load of another dataset in the same process would."""
     import pytz
     real = loader.real_module('spowtd.load')
     tz = pytz.timezone(zone)
     text = (EPOCH0 + datetime.timedelta(seconds=L)).strftime('%Y-%m-%d %H:%M:%S')
     info = {'zone': zone, 'local_time': text}
+    if earlier_zone:
+        info['converted_before_for_zone'] = earlier_zone
     try:
+        if earlier_zone:
+            list(real.generate_timestamped_rows([[text, 'w']], pytz.timezone(earlier_zone)))
         rows = list(real.generate_timestamped_rows([[text, 'v']], tz))
     except Exception as e:
         info['error'] = '%s: %s' % (type(e).__name__, e)
@@ -459,10 +467,14 @@ def transition_windows(zone, quick):
     return out
 
 
+EARLIER_ZONE = 'Etc/GMT+5'
+
+
 def _tz_task(args):
-    zone, rng, replay_every = args
-    return symx.explore(harness_tz, {'zone': zone, 'range': rng, 'replay_every': replay_every},
-                        name='timezone[%s]' % zone, workers=1, wall_limit_s=600, max_paths=20000)
+    zone, rng, replay_every = args[:3]
+    earlier = args[3] if len(args) > 3 else None
+    return symx.explore(harness_tz, {'zone': zone, 'range': rng, 'replay_every': replay_every, 'earlier_zone': earlier},
+                        name='timezone%s[%s]' % ('_after_another_zone' if earlier else '', zone), workers=1, wall_limit_s=600, max_paths=20000)
 
 
 class C11(Check):
@@ -490,6 +502,8 @@ class C11(Check):
         self.outside = ['sub-second timestamps', 'tzdata versions other than the installed pytz', 'irregular rainfall steps that leave fewer than three rain instants inside the level span (any two instants are uniform)']
         import multiprocessing as mp
         tasks = [(z, zone_range(z, quick), 7) for z in zones]
+        # the same conversions when the text was converted before for a dataset in another zone (one process, two loads)
+        tasks += [(z, zone_range(z, quick), 7, EARLIER_ZONE) for z in (zones[:10] if quick else zones[:40]) if z != EARLIER_ZONE]
         with mp.get_context('fork').Pool(16) as pool:
             for exp in pool.imap_unordered(_tz_task, tasks):
                 self.absorb(exp, need_paths=1)
@@ -497,6 +511,7 @@ class C11(Check):
         with mp.get_context('fork').Pool(16) as pool:
             for exp in pool.imap_unordered(_tz2_task, tasks2):
                 self.absorb(exp, need_paths=1)
+        self.bounds['earlier conversion'] = 'the first %d zones again after the same text was converted for %s in the same process' % (10 if quick else 40, EARLIER_ZONE)
         self.bounds['two rows'] = '%d windows of +-5000 s around zone transitions, second row 1..7200 s later' % len(tasks2)
         ctx = C10.ctx_for(self.tier, self.seed)
         ctx['orders'] = ['sorted']
@@ -520,7 +535,7 @@ class C11(Check):
         if h.startswith('timezone'):
             zone = h.split('[')[1].rstrip(']')
             m = model_fractions(failure.get('model'))
-            ok, info = replay_tz(zone, int(m.get('wall_clock_s', 0)))
+            ok, info = replay_tz(zone, int(m.get('wall_clock_s', 0)), EARLIER_ZONE if h.startswith('timezone_after_another_zone') else None)
             info['expected'] = failure.get('detail')
             return not ok, info
         kind = h.split('[')[1].rstrip(']')
